@@ -184,7 +184,7 @@ func vlRun(seed int64, round int, hang *atomic.Bool) (evs []vlEvent, fatal strin
 		if c.Persist == 0 {
 			cfg.AutoIndexPersistInterval = AlwaysIndexPersistOnAutoCommit
 		} else if c.Persist == 2 {
-			cfg.AutoIndexPersistInterval = 1 * telem.Millisecond
+			cfg.AutoIndexPersistInterval = 5 * telem.Millisecond
 		}
 	}
 	// session runs one writer session on all three channels: open, writes, commit, close
